@@ -31,7 +31,9 @@ KNOWN = ("C01-NONLIT", "C01-NONLIT-KLS", "C02-MIXEDKIND", "C02-GONEREF")
 @st.composite
 def cases(draw):
     g = draw(gg.general(bnodes=False, lit_kinds=["word", "lang", "integer"], max_stmts=22, odd_schemes=draw(st.integers(0, 3)) == 0,
-                        quirks=["same_local_classes"] if draw(st.integers(0, 5)) == 0 else []))
+                        quirks=(["same_local_classes"] if draw(st.integers(0, 5)) == 0 else []) +
+                        # internationalised IRIs (Zo\u00eb), ':' in local names, hash properties: a node is asked for by its IRI as it is
+                        draw(gg.quirk_set(allowed=("unicode_iris", "unicode_iris", "colon_locals", "hash_props", "urn_nodes"), one_in=3))))
     cfg = draw(gg.switches())
     cfg["instances_report_mode"] = "mixed"
     mode = draw(st.sampled_from(["classes", "all", "sm"]))
